@@ -347,6 +347,13 @@ func playScenario(ch *child, base childStats, cfg childCfg, seed uint64, idx int
 			}
 		}
 	}()
+	if snapErr != nil {
+		// the control pipe broke: most likely the child is dying; give it a moment to be reaped
+		select {
+		case <-ch.exited:
+		case <-time.After(2 * time.Second):
+		}
+	}
 	if !ch.alive() {
 		out.evals++
 		sum := ch.panicSummary()
